@@ -24,12 +24,19 @@ from .srcmodel import SourceModel, AnalysisError
 
 def _variants(prop: str):
     out = []
-    path = os.path.join(VERIF, "selftest", "variants", f"{prop.lower()}.py")
-    if os.path.exists(path):
+    own = os.path.join(VERIF, "selftest", "variants", f"{prop.lower()}.py")
+    # files named after a property hold that property's variants; any other file holds
+    # variants that name their property themselves ("prop")
+    for path in [own] + sorted(p for p in glob.glob(os.path.join(VERIF, "selftest", "variants", "*.py"))
+                               if not os.path.basename(p)[1:3].isdigit()):
+        if not os.path.exists(path):
+            continue
         spec = importlib.util.spec_from_file_location("v", path)
         mod = importlib.util.module_from_spec(spec)
         spec.loader.exec_module(mod)
         for v in mod.VARIANTS:
+            if path != own and v.get("prop") != prop:
+                continue
             out.append({"id": v["id"], "edits": v["edits"], "expect": v.get("expect", "fire"),
                         "rule": v.get("rule"), "source": "selftest"})
     for sd in sorted(glob.glob(os.path.join(VERIF, "seeded", f"{prop}-*"))):
@@ -73,10 +80,10 @@ def _one(args):
             if r.returncode != 0:
                 return v["id"], "skipped", "patch does not apply to the current tree"
         else:
-            for rel, old, new in v["edits"]:
+            for rel, old, new, *rest in v["edits"]:
                 p = os.path.join(dst, rel)
                 s = open(p).read()
-                if s.count(old) != 1:
+                if s.count(old) != (rest[0] if rest else 1):
                     return v["id"], "skipped", "anchor text not present in the current tree"
                 open(p, "w").write(s.replace(old, new))
         res = _run_rules(prop, dst)
